@@ -42,6 +42,7 @@ type Env struct {
 	depth  int
 	atBlock *ssa.BasicBlock
 	bound   map[string]bool // quantifier / sum variables in scope
+	noHoist bool            // evaluating inside a definition body: emit no commands
 }
 
 func (e *Env) with(name string, v SV) *Env {
@@ -724,6 +725,52 @@ func (e *Env) evalIndex(n *spec.Index) (SV, error) {
 	return SV{}, fmt.Errorf("cannot index %s (type %s)", n.X, t)
 }
 
+var (
+	qvarRe     = regexp.MustCompile(`\bq_(\w+?)_\d+\b`)
+	qbinderRe  = regexp.MustCompile(`\(\((q_\w+?_\d+) `)
+	outerVarRe = regexp.MustCompile(`\bq_\w+_\d+\b|SUMIDX|opq_`)
+)
+
+// hoistFormula (contract flag `namedinv`) names a closed quantified formula that a spec macro expands
+// to -- an invariant such as indexed(o), typically mentioned as hypothesis and as conclusion of
+// several clauses -- by a declared boolean, once per state.  Two mentions of the same invariant in
+// the same state are then the same propositional atom, instead of two alpha-equivalent quantified
+// formulas that the solver has to prove equivalent by skolemisation and instantiation.
+func (e *Env) hoistFormula(r SV) SV {
+	vc := e.vc
+	if !vc.namedInv || e.noHoist || r.T.Sort != SBool || len(r.T.S) < 200 || !(strings.Contains(r.T.S, "(forall ") || strings.Contains(r.T.S, "(exists ")) {
+		return r
+	}
+	// closed: every bound-variable name left after removing the formula's own binders would be
+	// bound outside (a macro called under a quantifier with the bound variable as argument)
+	own := map[string]bool{}
+	for _, m := range qbinderRe.FindAllStringSubmatch(r.T.S, -1) {
+		own[m[1]] = true
+	}
+	rest := qvarRe.ReplaceAllStringFunc(r.T.S, func(v string) string {
+		if own[v] {
+			return "OWN"
+		}
+		return v
+	})
+	if outerVarRe.MatchString(rest) {
+		return r
+	}
+	key := qvarRe.ReplaceAllString(r.T.S, "q_${1}_#")
+	if vc.hoisted == nil {
+		vc.hoisted = map[string]Term{}
+	}
+	if c, ok := vc.hoisted[key]; ok {
+		r.T = c
+		return r
+	}
+	c := vc.declare("inv", SBool)
+	vc.cmd(fmt.Sprintf("(assert (= %s %s))", c.S, r.T.S))
+	vc.hoisted[key] = c
+	r.T = c
+	return r
+}
+
 func (e *Env) evalQuant(n *spec.Quant) (SV, error) {
 	vc := e.vc
 	vc.nfresh++
@@ -1144,7 +1191,11 @@ func (e *Env) evalCall(n *spec.Call) (SV, error) {
 			inner.names[p] = a
 			inner.bound[p] = true // macro parameters shadow loop variables of the same name
 		}
-		return inner.eval(m.Body)
+		r, err := inner.eval(m.Body)
+		if err != nil {
+			return r, err
+		}
+		return e.hoistFormula(r), nil
 	}
 	// uninterpreted pure function: name with arguments
 	if strings.HasPrefix(n.Fun, "uf_") {
@@ -1502,7 +1553,7 @@ func (e *Env) evalOpaque(m *spec.Macro, n *spec.Call) (SV, error) {
 		if mp := e.macroPkg(m); mp != nil {
 			ipkg = mp
 		}
-		inner := &Env{vc: vc, names: names, st: st, old: st, pkg: ipkg, depth: e.depth + 1, bound: bound}
+		inner := &Env{vc: vc, names: names, st: st, old: st, pkg: ipkg, depth: e.depth + 1, bound: bound, noHoist: true}
 		body, err := inner.eval(m.Body)
 		if err != nil {
 			return SV{}, fmt.Errorf("opaque %s: %v", m.Name, err)
